@@ -105,6 +105,8 @@ def make_peaks(rnd, g, ubis, n):
 class C07(object):
     id = "C07"
     engine = "simomp"
+    time_keys = {"steps": "scheduler steps (one per instrumented access, GOMP entry or allocator call)"}
+    fault_keys = ["switches", "realloc_moved", "realloc_stay", "alloc", "free", "parallel_runs"]
     tiers = {"quick": {"runs": 10000, "budget_s": 60, "selftest_every": 50, "fresh_selftest": 8},
              "thorough": {"runs": 1000000, "budget_s": 800, "selftest_every": 300, "fresh_selftest": 16}}
     rule = ("one run = (1..50 grains incl. twins/near-duplicates/duplicates, 0..20000 peaks biased to 4096*k and "
